@@ -267,6 +267,8 @@ func Array[V any](arguments ...any) col.ArrayLike[V] {
 	// Initialize the possible arguments.
 	var notation = CDCN()
 	var size uint
+	var sized bool
+	var valued bool
 	var values []V
 	var sequence col.Sequential[V]
 	var source string
@@ -276,10 +278,13 @@ func Array[V any](arguments ...any) col.ArrayLike[V] {
 		switch actual := argument.(type) {
 		case int:
 			size = uint(actual)
+			sized = true
 		case uint:
 			size = actual
+			sized = true
 		case []V:
 			values = actual
+			valued = true
 		case string:
 			source = actual
 		default:
@@ -320,9 +325,12 @@ func Array[V any](arguments ...any) col.ArrayLike[V] {
 		var iterator = collection.GetIterator()
 		for iterator.HasNext() {
 			var value = iterator.GetNext().(V)
+			index++ // Indices are ORDINAL based.
 			array.SetValue(index, value)
-			index++
 		}
+	case sized || valued:
+		// An empty array was requested.
+		array = class.Make(0)
 	default:
 		panic("The constructor for an array requires an argument.")
 	}
